@@ -120,7 +120,7 @@ def add_dyndep(draw, g):
             earlier = [x for x in earlier if x not in e['exp'] + e['imp'] + e['oo'] + e.get('hidden', [])]
             e['dd'] = dd
             e['dd_ins'] = draw(st.lists(st.sampled_from(earlier), max_size=2, unique=True)) if earlier else []
-            e['dd_outs'] = ["ddo%d_%d" % (d, i)] if draw(st.integers(0, 2)) == 2 else []
+            e['dd_outs'] = ["ddo%d_%d" % (d, i)] if draw(st.integers(0, 1)) == 1 else []
             e['dd_restat'] = draw(st.integers(0, 3)) == 3
             new_outs += e['dd_outs']
         if produced:
@@ -141,7 +141,7 @@ def manifest(g):
     for name, depth in sorted(g.get('pools', {}).items()):
         L.append("pool %s\n  depth = %d\n" % (name, depth))
     L.append("rule cc\n  command = cc $in -o $out # $v\n  description = CC $out\n")
-    L.append("rule ccrsp\n  command = cc @$out.rsp -o $out # $v\n  description = CC $out\n  rspfile = $out.rsp\n"
+    L.append("rule ccrsp\n  command = cc @$rspf -o $out # $v\n  description = CC $out\n  rspfile = $rspf\n"
              "  rspfile_content = $rsptag $in\n")
     for e in g['edges']:
         rule = 'phony' if e['phony'] else ('ccrsp' if e.get('rsp') is not None else 'cc')
@@ -177,7 +177,84 @@ def manifest(g):
             if e.get('pool'):
                 L.append("  pool = %s\n" % e['pool'])
             if e.get('rsp') is not None:
-                L.append("  rsptag = %s\n" % e['rsp'])
+                L.append("  rsptag = %s\n  rspf = %s.rsp\n" % (e['rsp'], key(e)))
+            if e.get('dd'):
+                L.append("  dyndep = %s\n" % e['dd'])
+    if g.get('defaults'):
+        L.append("default %s\n" % " ".join(g['defaults']))
+    return "".join(L)
+
+
+def real_args(g, e):
+    """vtool arguments that describe what the command of e does (E2E engine); a function of the graph only"""
+    ph = models.phony_outs(g)
+    a = []
+    if models.is_restat(e) and e.get('restat'):
+        a.append("--restat")
+    if e.get('dd') and e.get('dd_restat') and not e.get('restat'):
+        a.append("--restat")     # the tool is a write-if-changed tool; ninja learns 'restat' from the dyndep file
+    if e.get('deps') == 'msvc':
+        a.append("--msvc")
+    if e.get('deps') in ('gcc', 'depfile'):
+        a += ["--depfile", key(e) + ".d", "--layout", str(e.get('depfile_layout', 0))]
+    if e.get('rsp') is not None:
+        a += ["--rsp", key(e) + ".rsp"]
+    for o, ov in (e.get('content_override') or {}).items():
+        a += ["--literal", o, ov.get('default', '').encode().hex() or "00"]
+    reads = models.true_reads(g, e, ph)
+    if reads:
+        a += ["--reads"] + reads
+    hid = [spell(h, e.get('spell', 0)) if e.get('deps') in ('gcc', 'depfile') else h for h in e.get('hidden', [])]
+    if hid:
+        a += ["--hidden"] + hid
+    a += ["--out"] + all_outs(e) + models.dd_outs(g, e)
+    return " ".join(a)
+
+
+def real_manifest(g, vtool):
+    """the same graph as manifest(g), with commands that run the vtool helper"""
+    L = ["vt = %s\n" % vtool]
+    for name, depth in sorted(g.get('pools', {}).items()):
+        L.append("pool %s\n  depth = %d\n" % (name, depth))
+    L.append("rule cc\n  command = $vt run --tag x$cmdtag --id $key --variant $v $args\n  description = CC $out\n")
+    L.append("rule ccrsp\n  command = $vt run --tag x$cmdtag --id $key --variant $v $args\n  description = CC $out\n  rspfile = $rspf\n"
+             "  rspfile_content = $rsptag $in\n")
+    for e in g['edges']:
+        rule = 'phony' if e['phony'] else ('ccrsp' if e.get('rsp') is not None else 'cc')
+        if e.get('bare') and not e['phony']:
+            rule = "bare_%s" % key(e).replace("/", "_")
+            L.append("rule %s\n  command = $vt run --id %s --variant %s %s\n  description = CC $out\n%s" % (
+                rule, key(e), models.content_variant(e), real_args(g, e), ("  dyndep = %s\n" % e['dd']) if e.get('dd') else ""))
+        line = "build %s" % " ".join(e['outs'])
+        if e.get('iouts'):
+            line += " | " + " ".join(e['iouts'])
+        line += ": %s %s" % (rule, " ".join(e['exp']))
+        if e['imp']:
+            line += " | " + " ".join(e['imp'])
+        oo = list(e['oo'])
+        if e.get('dd') and e['dd'] not in e['exp'] + e['imp'] + oo:
+            oo.append(e['dd'])
+        if oo:
+            line += " || " + " ".join(oo)
+        if e.get('vals'):
+            line += " |@ " + " ".join(e['vals'])
+        L.append(line.rstrip() + "\n")
+        if not e['phony'] and not e.get('bare'):
+            L.append("  key = %s\n  v = %s\n  args = %s\n" % (key(e), models.content_variant(e), real_args(g, e)))
+            if e['variant'] != models.content_variant(e):
+                L.append("  cmdtag = %s\n" % e['variant'])
+            if e['restat']:
+                L.append("  restat = 1\n")
+            if e['generator']:
+                L.append("  generator = 1\n")
+            if e['deps'] in ('gcc', 'depfile'):
+                L.append("  depfile = %s.d\n" % key(e))
+            if e['deps'] in ('gcc', 'msvc'):
+                L.append("  deps = %s\n" % e['deps'])
+            if e.get('pool'):
+                L.append("  pool = %s\n" % e['pool'])
+            if e.get('rsp') is not None:
+                L.append("  rsptag = %s\n  rspf = %s.rsp\n" % (e['rsp'], key(e)))
             if e.get('dd'):
                 L.append("  dyndep = %s\n" % e['dd'])
     if g.get('defaults'):
@@ -250,6 +327,8 @@ def change_op():
         st.fixed_dictionaries(dict(op=st.just('del_depfile'), a=st.integers(0, 30))),
         st.fixed_dictionaries(dict(op=st.just('drop_log'), a=st.integers(0, 30))),
         st.fixed_dictionaries(dict(op=st.just('wipe_deps'))),
+        # the log as it looks after many rebuilds: every record several times, so that the next start recompacts it
+        st.fixed_dictionaries(dict(op=st.just('bloat_log'))),
         # directed ops: construct the rare shapes instead of waiting for them
         st.fixed_dictionaries(dict(op=st.just('touch_restat_input'), a=st.integers(0, 30))),
         st.fixed_dictionaries(dict(op=st.just('edit_hidden'), a=st.integers(0, 30))),
@@ -259,7 +338,7 @@ def change_op():
 def macro_op():
     """fixed skeletons of related steps whose parameters are generated (which statement, which file, -j, schedule):
     they construct multi-step shapes that independent draws would need ~1e5 histories to line up"""
-    return st.fixed_dictionaries(dict(op=st.sampled_from(['m_swap_then_edit', 'm_rehide_then_edit', 'm_fail_then_fix']),
+    return st.fixed_dictionaries(dict(op=st.sampled_from(['m_swap_then_edit', 'm_rehide_then_edit', 'm_fail_then_fix', 'm_bloat_then_rebuild']),
                                       a=st.integers(0, 30), b=st.integers(0, 30), c=st.integers(0, 5),
                                       j=st.sampled_from([1, 2, 3]), sched=SCHED))
 
